@@ -8,6 +8,7 @@ from ..cfg import CFG
 from ..report import control
 from .. import variants
 from ..registry import concrete
+from ..model import AnalysisError
 
 TECHNIQUE = "class-family registry vs isinstance refusal chain (exhaustiveness check on the AST)"
 EXPLANATION = """
@@ -21,7 +22,9 @@ constraint class, or a class dropped from the chain, is reported.  (reset) the s
 re-initialised between calls: every assignment of reset_state rebinds a declared global, every module global written by
 the core is among them, and SMGen.sample calls reset_state before any encoding call.  (answer length) the construction of
 the returned SamplingResult is dominated by a refusing branch that compares every returned column with
-block.trials_per_sample().
+block.trials_per_sample().  (table) the transition-level table of the scattered-map core is written and read with one
+orientation: [previous level][current level], decided from def-use (the writer's predicate window slots, the row that receives
+or is compared with each reader's answer).
 """
 NOT_DECIDED = ("validity of what the scattered-map search returns for supported designs, including the trial count "
                "when a MinimumTrials is met by Repeat (a runtime quantity).")
@@ -123,6 +126,109 @@ def rule_reset(ctx):
     ok = len(rcalls) == 1 and all(g_.dominates(g_.node_of(rcalls[0]), g_.node_of(e)) for e in enc)
     ctx.check(ok, R, sm, "reset before encoding (%d encoding statements)" % len(enc), "reset_state() dominates every call that encodes the experiment into the core",
               "SMGen.sample can encode an experiment into the scattered-map core without having reset it first", rcalls[0] if rcalls else sm.node)
+
+
+def _blocks(fn_node):
+    """every statement list of a function (nested functions included)"""
+    for node in ast.walk(fn_node):
+        for fld in ("body", "orelse", "finalbody"):
+            b = getattr(node, fld, None)
+            if isinstance(b, list) and b and isinstance(b[0], ast.stmt):
+                yield b
+
+
+def _last_def(block, upto, name):
+    """value of the last plain assignment to `name` among block[:upto]"""
+    for st in reversed(block[:upto]):
+        if isinstance(st, ast.Assign) and len(st.targets) == 1 and isinstance(st.targets[0], ast.Name) and st.targets[0].id == name:
+            return st.value
+    return None
+
+
+def _row_of(block, upto, e):
+    """`ROW[cell]` behind an index expression (a local name is followed once); returns (row text, cell text)"""
+    if isinstance(e, ast.Name):
+        e = _last_def(block, upto, e.id)
+    if isinstance(e, ast.Subscript):
+        return ast.unparse(e.value), ast.unparse(e.slice)
+    return None
+
+
+def rule_transition_table(ctx, R="C29.table"):
+    """The level of a transition factor is tabulated once (execute) and looked up by the search and by both result checkers.
+    Orientation of the square table, decided from def-use: the writer's second index is the level it passes as the window's
+    index 0 (the current trial), its first index the level passed as index -1 (the previous trial); every reader's second index
+    is read from the row that receives, or is compared with, the looked-up answer (the current trial's row), its first index from
+    another row at the same cell."""
+    mod = ctx.repo.module("scattered_map_core") if hasattr(ctx.repo, "module") else None
+    ex = ctx.fn("scattered_map_core:execute")
+    n = 0
+    # ---- writer
+    for b in _blocks(ex.node):
+        for i, st in enumerate(b):
+            if not (isinstance(st, ast.Assign) and len(st.targets) == 1 and isinstance(st.targets[0], ast.Subscript) and
+                    isinstance(st.targets[0].value, ast.Subscript) and isinstance(st.targets[0].value.value, ast.Name)):
+                continue
+            t = st.targets[0]
+            base = t.value.value.id
+            if not any(isinstance(c, ast.Call) and call_attr(c) == "append" and len(c.args) == 1 and dotted(c.args[0]) == base and dotted(c.func.value) == "asg_tmp"
+                       for c in ast.walk(ex.node)):
+                continue
+            if not (isinstance(t.slice, ast.Name) and isinstance(t.value.slice, ast.Name)):
+                continue
+            first, second = t.value.slice.id, t.slice.id
+            slots = {}
+            for x in ast.walk(ast.Module(body=b[:i], type_ignores=[])):
+                if isinstance(x, ast.Assign) and len(x.targets) == 1 and isinstance(x.targets[0], ast.Subscript) and dotted(x.targets[0].value) == "arg":
+                    k = ast.unparse(x.targets[0].slice)
+                    r = _row_of(b, i, x.value)
+                    if k in ("0", "-1") and r is not None:
+                        slots[k] = r[1]
+            if set(slots) != {"0", "-1"}:
+                continue
+            n += 1
+            ctx.check(slots["0"] == second and slots["-1"] == first, R, ex, "transition table writer %s[%s][%s]" % (base, first, second),
+                      "the table is written [previous level][current level]",
+                      "execute() stores the transition level at %s[%s][%s], but the level indexed by `%s` is the one passed to the predicate as the window's index %s: "
+                      "the table is transposed with respect to the readers that index it [previous][current]" % (
+                          base, first, second, second, "0" if slots["0"] == second else "-1"), st)
+    # ---- readers
+    for f in list(ctx.repo.all_functions):
+        if f.module.short.split(".")[-1] != "scattered_map_core":
+            continue
+        for b in _blocks(f.node):
+            for i, st in enumerate(b):
+                if not (isinstance(st, ast.Assign) and len(st.targets) == 1 and isinstance(st.targets[0], ast.Name)):
+                    continue
+                v = st.value
+                if not (isinstance(v, ast.Subscript) and isinstance(v.value, ast.Subscript) and isinstance(v.value.value, ast.Subscript) and
+                        dotted(v.value.value.value) == "asg_vf"):
+                    continue
+                ans = st.targets[0].id
+                ra, rb = _row_of(b, i, v.value.slice), _row_of(b, i, v.slice)
+                sink = None
+                for later in b[i + 1:]:
+                    if isinstance(later, ast.Assign) and len(later.targets) == 1 and isinstance(later.targets[0], ast.Subscript) and dotted(later.value) == ans:
+                        sink = ast.unparse(later.targets[0].value)
+                        break
+                    if isinstance(later, ast.If) and isinstance(later.test, ast.Compare) and len(later.test.comparators) == 1:
+                        sides = [later.test.left, later.test.comparators[0]]
+                        if any(dotted(x) == ans for x in sides):
+                            other = [x for x in sides if dotted(x) != ans]
+                            if other and isinstance(other[0], ast.Subscript):
+                                sink = ast.unparse(other[0].value)
+                                break
+                    if any(isinstance(x, ast.Name) and x.id == ans and isinstance(x.ctx, ast.Store) for x in ast.walk(later)):
+                        break
+                if ra is None or rb is None or sink is None:
+                    raise AnalysisError("%s: transition table lookup `%s` not understood (rows %s / %s, sink %s)" % (f.fq, ast.unparse(v), ra, rb, sink))
+                n += 1
+                ctx.check(rb[0] == sink and ra[0] != sink and ra[1] == rb[1], R, f, "transition table reader in %s" % f.name,
+                          "the lookup is [other row][row that receives the answer] at one cell",
+                          "%s looks the transition level up as `%s` with first index from `%s[%s]` and second index from `%s[%s]`, and the answer belongs to `%s`: the second "
+                          "index must come from the row the answer belongs to (the current trial), the first from the previous trial's row, as the table is written" % (
+                              f.name, ast.unparse(v), ra[0], ra[1], rb[0], rb[1], sink), st)
+    ctx.require(n >= 5, "transition table: only %d writer/reader sites found (1 writer and 4 readers confirmed by hand)" % n)
 
 
 def check(ctx):
@@ -245,10 +351,17 @@ def check(ctx):
                               "attached to the wrong levels" % (a, na, w_, nw), b[0])
     ctx.require(n_blocks >= 4, "encode_weights: only %d blocks with paired appends found" % n_blocks)
     rule_reset(ctx)
+    rule_transition_table(ctx)
     modx = sys.modules[__name__]
     control(ctx, modx, "answer returned without the length check",
             lambda s_: variants.in_function(s_, "sweetpea/_internal/sampling_strategy/smgen.py", "SMGen.sample",
                                             "        if any(len(vals) != block.trials_per_sample() for a in r for vals in a.values()):\n            _cexit(", "        if False:\n            _cexit("), "C29.block-kind")
+    SM = "sweetpea/_internal/sampling_strategy/scattered_map_core.py"
+    control(ctx, modx, "transition table written transposed",
+            lambda s_: variants.in_function(s_, SM, "execute", "asg_vf_i[j][z]=answers[0]", "asg_vf_i[z][j]=answers[0]"), "C29.table")
+    control(ctx, modx, "one reader of the transition table transposed",
+            lambda s_: variants.in_function(s_, SM, "sm_backtrack_random", "ans=(asg_vf[i])[source_row][dst_row]", "ans=(asg_vf[i])[dst_row][source_row]"), "C29.table")
+    ctx.min_instances("C29.table", 5)
     ctx.min_instances("C29.parallel", 4)
     ctx.min_instances("C29.reset", 3)
     ctx.min_instances("C29.refusal", 5)
